@@ -98,6 +98,8 @@ def shards(tier):
     nd3 = 16 if tier == "thorough" else 2
     s += [{"kind": "depth3", "part": k, "of": 16, "step": 1 if tier == "thorough" else 23} for k in range(nd3)]
     s += [{"kind": "hyp", "n": 1500 if tier == "quick" else 20000} for _ in range(6 if tier == "quick" else 16)]
+    if tier == "thorough":
+        s += [{"kind": "fuzz", "runs": 200000} for _ in range(2)]
     return s
 
 
@@ -184,6 +186,18 @@ def run_shard(spec, ctx):
                 acc.ev()
         acc.cls("depth3_exprs", k)
         acc.extra = {"depth3_total_exprs": 2 * len(d2) ** 2 + len(d2), "depth3_step": step, "depth3_complete": step == 1}
+        return
+
+    if spec["kind"] == "fuzz":
+        stats, v = core.run_fuzz("c09", ctx, spec["runs"], max_len=64)
+        if stats is None:
+            acc.cls("atheris_unavailable")
+            return
+        acc.ev(stats.get("execs", 0))
+        acc.cls("atheris_execs", stats.get("execs", 0))
+        acc.nontrivial_enum += stats.get("distinct_nontrivial", 0)
+        if v is not None:
+            raise v
         return
 
     # generated
